@@ -42,11 +42,16 @@ Restrict(f, S) == [x \in S |-> f[x]]
 MapBag(B, F) == [o \in {F[r] : r \in DOMAIN B} |-> WSum({r \in DOMAIN B : F[r] = o}, B)]
 
 \* ------------------------------------------------------------------ graphs
-EmptyGraph == [nodes |-> <<>>, rels |-> <<>>]
+\* nid: handle -> the id the store gave the node; idx: physical content of the property indexes (entries
+\* [lb, key, v, id]) -- both only matter to the C02 index deviations and are maintained by the trace specification
+EmptyGraph == [nodes |-> <<>>, rels |-> <<>>, nid |-> <<>>, idx |-> {}]
 NodeRec(labels, p, q) == [live |-> TRUE, labels |-> labels, props |-> [p |-> p, q |-> q]]
-RelRec(s, d, t, p) == [live |-> TRUE, s |-> s, d |-> d, t |-> t, props |-> [p |-> p, q |-> VNull]]
-AddNode(G, labels, p, q) == [G EXCEPT !.nodes = Append(@, NodeRec(labels, p, q))]
-AddRel(G, s, d, t, p) == [G EXCEPT !.rels = Append(@, RelRec(s, d, t, p))]
+\* h = the handle under which the relationship is reported (its own index, except for the phantom copies the trace
+\* specification adds to model stale entries of the frozen adjacency tier)
+RelRec(s, d, t, p, h) == [live |-> TRUE, s |-> s, d |-> d, t |-> t, props |-> [p |-> p, q |-> VNull], h |-> h]
+AddNodeId(G, labels, p, q, id) == [G EXCEPT !.nodes = Append(@, NodeRec(labels, p, q)), !.nid = Append(@, id)]
+AddNode(G, labels, p, q) == AddNodeId(G, labels, p, q, Len(G.nodes) + 1)
+AddRel(G, s, d, t, p) == [G EXCEPT !.rels = Append(@, RelRec(s, d, t, p, Len(G.rels) + 1))]
 LiveN(G) == {h \in DOMAIN G.nodes : G.nodes[h].live}
 LiveR(G) == {h \in DOMAIN G.rels : G.rels[h].live}
 \* deleting a node removes its relationships (what GraphStore::delete_node does)
@@ -106,6 +111,33 @@ EvalX(x, row, G) ==
 \* truth of a WHERE predicate on a row: "T" keep, "F"/"U" drop, "E" type error
 Where3(x, row, G) == IF x.e = "none" THEN "T" ELSE LET v == EvalX(x, row, G) IN IF IsErr(v) THEN "E" ELSE TruthOf(v)
 
+\* ------------------------------------------------------------------ property index (C02 deviations)
+\* the order of the B-tree index keys (PropertyValue's Ord): Boolean < numbers < String; equal numbers: Integer < Float
+StorageLt(a, b) ==
+    LET bucket(v) == CASE v.k = "B" -> 0 [] v.k \in {"I", "F"} -> 1 [] v.k = "S" -> 2 [] OTHER -> 9 IN
+    IF bucket(a) # bucket(b) THEN bucket(a) < bucket(b)
+    ELSE CASE a.k = "B" -> a.n < b.n
+           [] a.k = "S" -> StrRank(a.s) < StrRank(b.s)
+           [] IsNum(a) -> Num2(a) < Num2(b) \/ (Num2(a) = Num2(b) /\ a.k = "I" /\ b.k = "F")
+           [] OTHER -> FALSE
+StorageCmp(op, v, lit) ==
+    CASE op = "=" -> v = lit
+      [] op = "<" -> StorageLt(v, lit)
+      [] op = "<=" -> StorageLt(v, lit) \/ v = lit
+      [] op = ">" -> StorageLt(lit, v)
+      [] op = ">=" -> StorageLt(lit, v) \/ v = lit
+\* what the indexes would hold if they followed the graph exactly
+IdealIdx(G) == {[lb |-> lb, key |-> key, v |-> G.nodes[h].props[key], id |-> G.nid[h]] :
+                   h \in {h \in DOMAIN G.nodes : G.nodes[h].live}, lb \in {"A", "B"}, key \in {"p", "q"}}
+\* (entries of labels the node does not carry / of absent properties are filtered where the content is used)
+\* KF_C02_IndexStaleEntries: the physical content (entries survive REMOVE, label removal and id reuse);
+\* KF_C02_IndexStorageOrder: keys are compared by storage order (2 and 2.0 are different keys, other types are in range)
+IxMult(G, ix, h, D) ==
+    LET content == IF "KF_C02_IndexStaleEntries" \in D THEN G.idx
+                   ELSE {e \in IdealIdx(G) : e.lb \in G.nodes[h].labels /\ e.v.k # "N"}
+        hit(e) == IF "KF_C02_IndexStorageOrder" \in D THEN StorageCmp(ix.op, e.v, ix.v) ELSE Cmp3(ix.op, e.v, ix.v) = "T"
+    IN Cardinality({e \in content : e.lb = ix.lb /\ e.key = ix.key /\ e.id = G.nid[h] /\ hit(e)})
+
 \* ------------------------------------------------------------------ pattern matching
 PropsOK(ps, have, row, G) == \A i \in DOMAIN ps : Eq3(have[ps[i].key], EvalX(ps[i].v, row, G)) = "T"
 \* union = TRUE is the known deviation KF_C01_MultiLabelUnion (a start-node scan with several labels unions them)
@@ -113,6 +145,8 @@ LabelsOK(np, have, union) ==
     IF union /\ Len(np.labels) >= 2 THEN \E i \in DOMAIN np.labels : np.labels[i] \in have
     ELSE \A i \in DOMAIN np.labels : np.labels[i] \in have
 NodeOK(G, np, h, row, union) == LabelsOK(np, G.nodes[h].labels, union) /\ PropsOK(np.props, G.nodes[h].props, row, G)
+\* a node position answered by an index scan (see IndexVariants): how many index entries deliver node h
+NodeMult(G, np, h, D) == IF "ix" \in DOMAIN np THEN IxMult(G, np.ix, h, D) ELSE 1
 RelOK(G, rp, r, row) ==
     /\ rp.types = <<>> \/ \E i \in DOMAIN rp.types : rp.types[i] = G.rels[r].t
     /\ PropsOK(rp.props, G.rels[r].props, row, G)
@@ -151,11 +185,14 @@ WalksFrom(G, path, row, w, i, u, D) ==
     IF i > Len(path.segs) THEN {w}
     ELSE LET seg == path.segs[i]
              a == w.ns[Len(w.ns)]
-         IN UNION {WalksFrom(G, path, row, [ns |-> Append(w.ns, x.end), rs |-> Append(w.rs, x.r)], i + 1, u, D) :
-                      x \in {y \in SegExt(G, seg.rel, row, a, D) : NodeOK(G, seg.node, y.end, row, u = i + 1)}}
+         IN UNION {WalksFrom(G, path, row, [ns |-> Append(w.ns, xk[1].end), rs |-> Append(w.rs, xk[1].r), k |-> Append(w.k, xk[2])], i + 1, u, D) :
+                      xk \in {yk \in SegExt(G, seg.rel, row, a, D) \X (1..3) :
+                                 NodeOK(G, seg.node, yk[1].end, row, u = i + 1) /\ yk[2] <= NodeMult(G, seg.node, yk[1].end, D)}}
+\* a walk: nodes ns, relationships rs (one sequence per segment), k (which of several identical index entries
+\* delivered each node; always 1 without an index scan)
 PathWalks(G, path, row, u, D) ==
-    UNION {WalksFrom(G, path, row, [ns |-> <<h>>, rs |-> <<>>], 1, u, D) :
-              h \in {h \in LiveN(G) : NodeOK(G, path.start, h, row, u = 1)}}
+    UNION {WalksFrom(G, path, row, [ns |-> <<hk[1]>>, rs |-> <<>>, k |-> <<hk[2]>>], 1, u, D) :
+              hk \in {x \in LiveN(G) \X (1..3) : NodeOK(G, path.start, x[1], row, u = 1) /\ x[2] <= NodeMult(G, path.start, x[1], D)}}
 \* shortestPath((a)-[*lo..hi]-(b)): one shortest trail per pair of end points (relationship list not observable)
 ShortestOnly(ws) ==
     {w \in ws : \A v \in ws : (v.ns[1] = w.ns[1] /\ v.ns[Len(v.ns)] = w.ns[Len(w.ns)]) => Len(w.rs[1]) <= Len(v.rs[1])}
@@ -166,10 +203,10 @@ PathMatches(G, path, row, u, D) ==
          ELSE {w \in S : w = CHOOSE v \in S : v.ns[1] = w.ns[1] /\ v.ns[Len(v.ns)] = w.ns[Len(w.ns)]}
 
 NodePatAt(path, j) == IF j = 1 THEN path.start ELSE path.segs[j - 1].node
-WalkPairs(path, w) ==
+WalkPairs(G, path, w) ==
     {<<NodePatAt(path, j).x, VNode(w.ns[j])>> : j \in {j \in 1..Len(w.ns) : NodePatAt(path, j).x # ""}}
     \cup {<<path.segs[j].rel.x,
-            IF path.segs[j].rel.vl THEN VList([k \in DOMAIN w.rs[j] |-> VRel(w.rs[j][k])]) ELSE VRel(w.rs[j][1])>> :
+            IF path.segs[j].rel.vl THEN VList([k \in DOMAIN w.rs[j] |-> VRel(G.rels[w.rs[j][k]].h)]) ELSE VRel(G.rels[w.rs[j][1]].h)>> :
               j \in {j \in 1..Len(w.rs) : path.segs[j].rel.x # ""}}
 PathVars(path) == ({NodePatAt(path, j).x : j \in 1..(Len(path.segs) + 1)} \cup {path.segs[j].rel.x : j \in DOMAIN path.segs}) \ {""}
 ClauseVars(c) == UNION {PathVars(c.paths[i]) : i \in DOMAIN c.paths}
@@ -185,11 +222,14 @@ Combos(G, paths, row, i, us, D) ==
 \* independently and joined, so relationship isomorphism is enforced inside each path only
 MatchExt(G, c, row, us, D) ==
     LET perpath == "KF_C01_RelIsoPerPathOnly" \in D
-        pairs(cb) == UNION {WalkPairs(c.paths[i], cb[i]) : i \in DOMAIN cb}
+        nouniq == "nouniq" \in DOMAIN c
+        rep(q) == [i \in DOMAIN q |-> G.rels[q[i]].h]       \* relationships are identified by their reported handle
+        pairs(cb) == UNION {WalkPairs(G, c.paths[i], cb[i]) : i \in DOMAIN cb}
         ok(cb) ==
             LET P == pairs(cb)
-                rl == ConcatAll([i \in DOMAIN cb |-> ConcatAll(cb[i].rs)])
-            IN /\ IF perpath THEN \A i \in DOMAIN cb : LET r1 == ConcatAll(cb[i].rs) IN Cardinality(Range(r1)) = Len(r1)
+                rl == rep(ConcatAll([i \in DOMAIN cb |-> ConcatAll(cb[i].rs)]))
+            IN /\ IF nouniq THEN TRUE
+                  ELSE IF perpath THEN \A i \in DOMAIN cb : LET r1 == rep(ConcatAll(cb[i].rs)) IN Cardinality(Range(r1)) = Len(r1)
                   ELSE Cardinality(Range(rl)) = Len(rl)                \* relationship isomorphism
                /\ \A a \in P, b \in P : a[1] = b[1] => a[2] = b[2]
                /\ \A a \in P : a[1] \in DOMAIN row => row[a[1]] = a[2]
@@ -211,11 +251,63 @@ UnionChoices(c, D) ==
                    ij[2] <= Len(c.paths[ij[1]].segs) + 1 /\ Len(NodePatAt(c.paths[ij[1]], ij[2]).labels) >= 2}
     IN IF "KF_C01_MultiLabelUnion" \notin D THEN {none}
        ELSE {none} \cup {[none EXCEPT ![ij[1]] = ij[2]] : ij \in pos}
+
+\* ---- C02 known deviation KF_C02_NativePlannerDropsPatternDetails (SAMYAMA_GRAPH_NATIVE=true): the graph-native
+\* planner builds its plan from a pattern graph that keeps, of a single-path MATCH, only: the FIRST label of the node it
+\* starts from (no label of any other node), the inline properties of named nodes, relationship types and the written
+\* direction (an undirected pattern is walked source -> target only); relationship properties, variable length,
+\* everything on anonymous nodes and relationship isomorphism are dropped.  st = the start position it chose.
+SetPath(c, path) == [c EXCEPT !.paths = <<path>>]
+NativeClause(c, st) ==
+    LET path == c.paths[1]
+        nn(np, j) == [x |-> np.x,
+                      labels |-> IF np.x # "" /\ j = st /\ np.labels # <<>> THEN <<np.labels[1]>> ELSE <<>>,
+                      props |-> IF np.x = "" THEN <<>> ELSE np.props]
+        nr(rp) == [rp EXCEPT !.props = <<>>, !.vl = FALSE, !.dir = IF @ = "both" THEN "out" ELSE @]
+        p2 == [path EXCEPT !.start = nn(path.start, 1),
+                           !.segs = [j \in DOMAIN path.segs |-> [rel |-> nr(path.segs[j].rel), node |-> nn(path.segs[j].node, j + 1)]]]
+    IN [nouniq |-> TRUE] @@ SetPath(c, p2)
+NativeVariants(c, D) ==
+    IF "KF_C02_NativePlannerDropsPatternDetails" \notin D \/ Len(c.paths) # 1 \/ c.paths[1].sp # "none" THEN {c}
+    ELSE {c} \cup {NativeClause(c, st) : st \in {j \in 1..(Len(c.paths[1].segs) + 1) : NodePatAt(c.paths[1], j).x # ""}}
+
+\* ---- C02 index deviations: a node position that carries a label and a predicate `x.key op literal` (inline property or
+\* top-level AND conjunct of the WHERE) may be answered by an index scan on (its first label, key): the candidates are
+\* whatever the index delivers (IxMult), the predicate and that label are not checked again.
+RECURSIVE Conjuncts(_)
+Conjuncts(x) == IF x.e = "and" THEN Conjuncts(x.a) \cup Conjuncts(x.b) ELSE {x}
+RECURSIVE DropConj(_, _)
+DropConj(x, t) == IF x = t THEN [e |-> "lit", v |-> VBool(TRUE)]
+                  ELSE IF x.e = "and" THEN [x EXCEPT !.a = DropConj(x.a, t), !.b = DropConj(x.b, t)] ELSE x
+FlipOp(op) == CASE op = "<" -> ">" [] op = "<=" -> ">=" [] op = ">" -> "<" [] op = ">=" -> "<=" [] OTHER -> op
+IxOps == {"=", "<", "<=", ">", ">="}
+\* the index predicates of variable x among the conjuncts of w: <<conjunct, key, op, literal>>
+WherePreds(w, x) ==
+    IF w.e = "none" THEN {}
+    ELSE {<<cj, cj.a.key, cj.op, cj.b.v>> : cj \in {cj \in Conjuncts(w) : cj.e = "cmp" /\ cj.op \in IxOps /\ cj.a.e = "prop" /\ cj.b.e = "lit" /\ cj.a.x = x}}
+         \cup {<<cj, cj.b.key, FlipOp(cj.op), cj.a.v>> : cj \in {cj \in Conjuncts(w) : cj.e = "cmp" /\ cj.op \in IxOps /\ cj.b.e = "prop" /\ cj.a.e = "lit" /\ cj.b.x = x}}
+SetNodeAt(path, j, np) == IF j = 1 THEN [path EXCEPT !.start = np] ELSE [path EXCEPT !.segs[j - 1].node = np]
+IndexVariants(c, D) ==
+    IF D \cap {"KF_C02_IndexStaleEntries", "KF_C02_IndexStorageOrder"} = {} THEN {c}
+    ELSE {c} \cup UNION {
+        LET np == NodePatAt(c.paths[ij[1]], ij[2])
+            rest == [np EXCEPT !.labels = Tail(np.labels)]
+            withIx(n2, key, op, v) == [ix |-> [lb |-> np.labels[1], key |-> key, op |-> op, v |-> v]] @@ n2
+            put(n2) == [c EXCEPT !.paths[ij[1]] = SetNodeAt(c.paths[ij[1]], ij[2], n2)]
+        IN IF np.x = "" \/ np.labels = <<>> THEN {}
+           ELSE {put(withIx([rest EXCEPT !.props = SelectSeq(np.props, LAMBDA kv : kv # np.props[k])], np.props[k].key, "=", np.props[k].v.v)) :
+                    k \in {k \in DOMAIN np.props : np.props[k].v.e = "lit"}}
+                \cup {[put(withIx(rest, t[2], t[3], t[4])) EXCEPT !.where = DropConj(c.where, t[1])] : t \in WherePreds(c.where, np.x)}
+        : ij \in {ij \in (DOMAIN c.paths) \X (1..4) : ij[2] <= Len(c.paths[ij[1]].segs) + 1}}
+\* every way the enabled deviations may have planned the MATCH clause
+ClauseVariants(c, D) == UNION {IndexVariants(c2, D) : c2 \in NativeVariants(c, D)}
+\* KF_C02_ParallelFilterSwallowsErrors: the parallel filter path (>= 256 rows) treats a predicate that fails as false
+WhereD(x, row, G, D) == LET t == Where3(x, row, G) IN IF t = "E" /\ "KF_C02_ParallelFilterSwallowsErrors" \in D THEN "F" ELSE t
 ApplyMatch(G, c, T, us, D) ==
     IF T.err THEN T
     ELSE LET B == T.bag
              all == [r \in DOMAIN B |-> MatchExt(G, c, r, us, D)]
-             tr == [r \in DOMAIN B |-> [m \in DOMAIN all[r] |-> Where3(c.where, m, G)]]
+             tr == [r \in DOMAIN B |-> [m \in DOMAIN all[r] |-> WhereD(c.where, m, G, D)]]
              kept(r) == {m \in DOMAIN all[r] : tr[r][m] = "T"}
              nullrow(r) == [x \in DOMAIN r \cup ClauseVars(c) |-> IF x \in DOMAIN r THEN r[x] ELSE VNull]
              isnull(r) == c.opt /\ kept(r) = {}
@@ -341,16 +433,16 @@ Windows(c, B) ==
     ELSE LET K == [o \in DOMAIN B |-> RowKeys(c, o)] IN {W \in SubBags(B) : ValidWindow(c, B, W, K)}
 
 \* ------------------------------------------------------------------ clause pipeline (sets of possible tables)
-FilterT(G, x, T) ==
+FilterT(G, x, T, D) ==
     IF T.err \/ x.e = "none" THEN T
-    ELSE LET tr == [r \in DOMAIN T.bag |-> Where3(x, r, G)] IN
+    ELSE LET tr == [r \in DOMAIN T.bag |-> WhereD(x, r, G, D)] IN
          IF \E r \in DOMAIN T.bag : tr[r] = "E" THEN ErrT ELSE OkT(Restrict(T.bag, {r \in DOMAIN T.bag : tr[r] = "T"}))
 ApplyClause(G, c, S, D) ==
-    CASE c.c = "match" -> {ApplyMatch(G, c, T, us, D) : T \in S, us \in UnionChoices(c, D)}
+    CASE c.c = "match" -> UNION {{ApplyMatch(G, c2, T, us, D) : T \in S, us \in UnionChoices(c2, D)} : c2 \in ClauseVariants(c, D)}
       [] c.c = "unwind" -> {ApplyUnwind(G, c, T) : T \in S}
       [] c.c = "with" ->
             UNION {LET P == Project(G, c, T, "KF_C01_KeysCompareStructurally" \in D) IN
-                   IF P.err THEN {P} ELSE {FilterT(G, c.where, OkT(W)) : W \in Windows(c, P.bag)} : T \in S}
+                   IF P.err THEN {P} ELSE {FilterT(G, c.where, OkT(W), D) : W \in Windows(c, P.bag)} : T \in S}
       [] c.c = "return" -> {Project(G, c, T, "KF_C01_KeysCompareStructurally" \in D) : T \in S}      \* its window is judged by the acceptance predicate
 RECURSIVE Pipe(_, _, _, _, _)
 Pipe(G, cs, i, S, D) == IF i > Len(cs) THEN S ELSE Pipe(G, cs, i + 1, ApplyClause(G, cs[i], S, D), D)
